@@ -40,8 +40,8 @@ package server
 //@   ensures[C15.wait] catLen(m, received) < 8 || (catHeader(m, received) && catLen(m, received) < 6 + catLenField(m, received)) ==> isnil(response) && handled == old(handled) && buflen(m.received) == catLen(m, received)
 //@   ensures[C15.wait] catLen(m, received) < 8 || (catHeader(m, received) && catLen(m, received) < 6 + catLenField(m, received)) ==> forall k in 0..catLen(m, received) :: bufbyte(m.received, k) == cat(m, received, k)
 //@   ensures[C15.once] catOneFrame(m, received) ==> buflen(m.received) == 0 && !isnil(response) && handled <= old(handled) + 1
-//@   ensures[C15.leftover] catHeader(m, received) && catLen(m, received) >= 6 + catLenField(m, received) && catLen(m, received) - (6 + catLenField(m, received)) < 8 ==> !isnil(response) && buflen(m.received) == catLen(m, received) - (6 + catLenField(m, received))
-//@   ensures[C15.leftover] catHeader(m, received) && catLen(m, received) >= 6 + catLenField(m, received) && catLen(m, received) - (6 + catLenField(m, received)) < 8 ==> forall k in 0..buflen(m.received) :: bufbyte(m.received, k) == cat(m, received, 6 + catLenField(m, received) + k)
+//@   ensures[C15.leftover,C16] catHeader(m, received) && catLen(m, received) >= 6 + catLenField(m, received) && catLen(m, received) - (6 + catLenField(m, received)) < 8 ==> !isnil(response) && buflen(m.received) == catLen(m, received) - (6 + catLenField(m, received))
+//@   ensures[C15.leftover,C16] catHeader(m, received) && catLen(m, received) >= 6 + catLenField(m, received) && catLen(m, received) - (6 + catLenField(m, received)) < 8 ==> forall k in 0..buflen(m.received) :: bufbyte(m.received, k) == cat(m, received, 6 + catLenField(m, received) + k)
 //@   ensures[C15.once,C16] catOneFrame(m, received) && !supportedFC(cat(m, received, 7)) && cat(m, received, 7) < 128 ==> replyTo(m, received, response) && response[8] == 1 && handled == old(handled)
 //@   ensures[C16] catOneFrame(m, received) && supportedFC(cat(m, received, 7)) && (handled == old(handled) || lastHandleErr != nil) ==> replyTo(m, received, response)
 //@   ensures[C16] catOneFrame(m, received) && supportedFC(cat(m, received, 7)) && handled == old(handled) ==> response[8] == 3
